@@ -1161,10 +1161,11 @@ tp_shutdown_wait(tp_p tp) {
 		return (EDEADLK);
 
 	for (size_t i = 0; i < tp->s.threads_max; i ++) {
-		if (TP_THREAD_STATE_STOP == tp->threads[i].state)
-			continue;
+		if ((pthread_t)0 == tp->threads[i].pt_id)
+			continue; /* Not started / attached / already joined. */
 		LCB_VERIF_POINT("tp_shutdown_wait:before-join");
 		error = pthread_join(tp->threads[i].pt_id, NULL);
+		memset(&tp->threads[i].pt_id, 0x00, sizeof(pthread_t));
 		switch (error) {
 		case 0: /* No error. */
 			break;
@@ -1249,6 +1250,7 @@ tp_threads_create(tp_p tp, const int skip_first) {
 		    tp_thread_proc, tpt)) {
 		} else {
 			tpt->state = TP_THREAD_STATE_STOP;
+			memset(&tpt->pt_id, 0x00, sizeof(pthread_t));
 		}
 	}
 	return (0);
@@ -1271,6 +1273,7 @@ tp_thread_attach_first(tp_p tp) {
 	tpt->pt_id = pthread_self();
 
 	tp_thread_proc(tpt);
+	memset(&tpt->pt_id, 0x00, sizeof(pthread_t)); /* Not joinable. */
 
 	return (0);
 }
@@ -1345,7 +1348,7 @@ tp_thread_proc(void *data) {
 	pthread_setspecific(tp_tls_key_tpt, NULL);
 	pthread_self_name_set(NULL);
 	LCB_VERIF_POINT("tp_thread_proc:before-clear-ptid");
-	memset(&tpt->pt_id, 0x00, sizeof(pthread_t));
+	/* Do not clear pt_id here: tp_shutdown_wait() need it for pthread_join(). */
 	LCB_VERIF_POINT("tp_thread_proc:before-stop");
 	tpt->state = TP_THREAD_STATE_STOP; /* Reset state on exit. */
 	LCB_VERIF_POINT("tp_thread_proc:after-stop");
